@@ -3,6 +3,7 @@ package rules
 import (
 	"fmt"
 	"go/token"
+	"go/types"
 
 	"golang.org/x/tools/go/ssa"
 
@@ -278,3 +279,124 @@ func c12(p *model.Prog, r *report.Result) {
 // selfGuard: guards contributed by the block's own position as a successor (none) — kept
 // for symmetry; Guards() already covers dominating edges.
 func selfGuard(b *ssa.BasicBlock) []model.Guard { return nil }
+
+// valueBits computes which bits of the integer value src (in src's bit positions) are present
+// in v after shifts, masks and truncating conversions. The second result is false when v does
+// not derive from src by such operations only.
+func valueBits(v ssa.Value, src ssa.Value) (uint64, bool) {
+	type item struct {
+		mask  uint64
+		shift int
+	}
+	width := func(t types.Type) int {
+		if b, ok := t.Underlying().(*types.Basic); ok {
+			switch b.Kind() {
+			case types.Uint8, types.Int8:
+				return 8
+			case types.Uint16, types.Int16:
+				return 16
+			case types.Uint32, types.Int32:
+				return 32
+			}
+		}
+		return 64
+	}
+	var rec func(x ssa.Value, d int) ([]item, bool)
+	rec = func(x ssa.Value, d int) ([]item, bool) {
+		if d > 20 {
+			return nil, false
+		}
+		if x == src || (paramCell(x) != nil && paramCell(x) == paramCell(src)) {
+			w := width(src.Type())
+			m := ^uint64(0)
+			if w < 64 {
+				m = (uint64(1) << uint(w)) - 1
+			}
+			return []item{{m, 0}}, true
+		}
+		switch y := x.(type) {
+		case *ssa.Convert:
+			in, ok := rec(y.X, d+1)
+			if !ok {
+				return nil, false
+			}
+			w := width(y.Type())
+			var out []item
+			for _, it := range in {
+				m := it.mask
+				if w < 64 {
+					keep := (uint64(1) << uint(w)) - 1
+					if it.shift >= 0 {
+						m &= keep << uint(it.shift)
+					} else {
+						m &= keep >> uint(-it.shift)
+					}
+				}
+				if m != 0 {
+					out = append(out, item{m, it.shift})
+				}
+			}
+			return out, true
+		case *ssa.BinOp:
+			k, isK := model.ConstInt(y.Y)
+			switch y.Op {
+			case token.AND:
+				if isK {
+					in, ok := rec(y.X, d+1)
+					if !ok {
+						return nil, false
+					}
+					var out []item
+					for _, it := range in {
+						var mm uint64
+						if it.shift >= 0 {
+							mm = uint64(k) << uint(it.shift)
+						} else {
+							mm = uint64(k) >> uint(-it.shift)
+						}
+						if m := it.mask & mm; m != 0 {
+							out = append(out, item{m, it.shift})
+						}
+					}
+					return out, true
+				}
+			case token.SHR:
+				if isK {
+					in, ok := rec(y.X, d+1)
+					if !ok {
+						return nil, false
+					}
+					var out []item
+					for _, it := range in {
+						sh := it.shift + int(k)
+						m := it.mask
+						if sh > 0 {
+							m &^= (uint64(1) << uint(sh)) - 1
+						}
+						if m != 0 {
+							out = append(out, item{m, sh})
+						}
+					}
+					return out, true
+				}
+			case token.OR, token.ADD:
+				a, ok1 := rec(y.X, d+1)
+				b, ok2 := rec(y.Y, d+1)
+				if ok1 || ok2 {
+					return append(a, b...), true
+				}
+			}
+		}
+		return nil, false
+	}
+	its, ok := rec(model.Unwrap(v), 0)
+	if !ok {
+		// v may be wrapped in conversions only at the top
+		its, ok = rec(v, 0)
+	}
+	var m uint64
+	for _, it := range its {
+		m |= it.mask
+	}
+	return m, ok
+}
